@@ -425,3 +425,74 @@ def generations_tuple(u):
     if not probs and kinds != {'error', 'filled', 'empty'}:
         probs.append('path kinds %s' % sorted(kinds))
     return probs
+
+
+# ---------------------------------------------------------------------------
+# getObjectSpecification: what both twins return (C10 F10 / C01 R01.7)
+
+def object_specification_twins(rep, rule, u, dmod):
+    """both twins: the object's own __provides__ when it is a specification;
+    else implementedBy(ob.__class__) - the class the object *reports*
+    (ob.__class__, an attribute read that proxies and descriptors answer),
+    never type(ob); _empty only when there is no __class__"""
+    import ast as _ast
+    from ..pyfront import find_def
+    from ..sympath import summaries as pys, normal
+    from .sem import nt
+    PROV = 'PyObject_GetAttr(ob, str__provides__)'
+    CLS = 'PyObject_GetAttr(ob, str__class__)'
+    probs = []
+    kinds = set()
+    for ps in returning(S(u, 'getObjectSpecification')):
+        r = ret(ps)
+        if r == 'NULL':
+            continue
+        if r == PROV:
+            kinds.add('own')
+            inst = [t for k, t, p in ps.order if k.startswith('PyObject_IsInstance(%s, ' % PROV)
+                    or k.startswith('PyObject_TypeCheck(%s, ' % PROV)]
+            if not inst or inst[-1] is not True:
+                probs.append('returns __provides__ without testing that it is a '
+                             'specification')
+        elif r == 'implementedBy(module, %s)' % CLS:
+            kinds.add('class')
+            if ps.facts.get(CLS) is not True:
+                probs.append('implementedBy of a failed __class__ read')
+        elif r.endswith('->empty'):
+            kinds.add('empty')
+            if ps.facts.get(CLS) is not False:
+                probs.append('returns the empty declaration although __class__ was '
+                             'not found missing')
+        else:
+            probs.append('returns `%s` (required: own __provides__, or implementedBy('
+                         'ob.__class__))' % r[:70])
+    if kinds != {'own', 'class', 'empty'}:
+        probs.append('result kinds seen: %s' % sorted(kinds))
+    rep.check(rule, 'getObjectSpecification', not probs,
+              'C: own specification, else implementedBy(module, getattr(ob, '
+              '"__class__")), else empty' if not probs else
+              {'problems': sorted(set(probs))[:3]}, construct='result-kinds', config='C')
+    f = find_def(dmod, 'getObjectSpecification')
+    probs = []
+    kinds = set()
+    for ps in normal(pys(f)):
+        r = nt(ps.ret)
+        if r == 'ob.__provides__':
+            kinds.add('own')
+            if ps.facts.get('isinstance(ob.__provides__, SpecificationBase)') is not True:
+                probs.append('returns __provides__ without testing that it is a '
+                             'specification')
+        elif r == 'implementedBy(ob.__class__)':
+            kinds.add('class')
+        elif r == '_empty':
+            kinds.add('empty')
+            if ps.facts.get('EXCEPT(AttributeError)') is not True:
+                probs.append('returns _empty although __class__ was found')
+        else:
+            probs.append('returns `%s`' % r[:70])
+    if kinds != {'own', 'class', 'empty'}:
+        probs.append('result kinds seen: %s' % sorted(kinds))
+    rep.check(rule, 'declarations.getObjectSpecification', not probs,
+              'Python: own specification, else implementedBy(ob.__class__), else _empty'
+              if not probs else {'problems': sorted(set(probs))[:3]},
+              construct='result-kinds', node=f)
